@@ -138,7 +138,7 @@ def c04(tier):
 
 
 def c17(tier):
-    family = programs.query_family() + fam(['override3'])
+    family = programs.query_family() + fam(['override3', 'override_rm_q'])
     v, cov, te, wall = syscheck.run_family(
         'C17', tier, family,
         ['TargetsSourcesPartition', 'OodLower', 'OodUpper', 'OodEmptyAfterBuild', 'Fresh', 'NoUnderBuild'], ['NoOverBuild'],
@@ -373,7 +373,7 @@ def pairs_part(pid, tier, verdict, cov, te):
     TLC, the real pair of commands must end as one of the specification's alternatives"""
     fam_ = programs.pair_family()
     if tier != 'thorough':
-        fam_ = [p for p in fam_ if p['name'] in ('pair_chain', 'pair_stamp', 'pair_fail')]
+        fam_ = [p for p in fam_ if p['name'] in ('pair_chain', 'pair_stamp', 'pair_lockfail')]
     v, cov2, te2, wall2 = syscheck.run_family(
         pid, tier, fam_, ['ParFresh', 'ParFailPropagates', 'ParNoTmpLeft', 'ScriptMutex', 'HoldThroughRecord',
                           'ScriptUnderLock', 'NotHung', 'NoPanic', 'Fresh'], [],
